@@ -5,7 +5,7 @@ CONSTANTS
   Kind = "nameaddr"
   Atoms <- AtomsAllH
   Prefix <- PfxNone
-  MaxLen = 4
+  MaxLen = 5
   Cfgs <- CfgsNA
   Junk = 34
   EmitOn = TRUE
